@@ -102,7 +102,7 @@ AST_TESTS = {
 }
 AST_IGNORED = {  # recognised forms outside the model's vocabulary (their presence does not matter to the model)
     "is_typing_name(root, 'TypeGuard')", "is_typing_name(root, 'TypeIs')", "is_typing_name(root, 'Required')",
-    "is_typing_name(root, 'NotRequired')", "is_typing_name(root, 'ReadOnly')", "root is AsynqCallable", "<else>",
+    "is_typing_name(root, 'NotRequired')", "is_typing_name(root, 'ReadOnly')", "root is AsynqCallable", "is_instance_of_typing_name(root, 'TypeAliasType')", "<else>",
 }
 AST_ACTIONS = {
     "return unite_values(*[_type_from_value(elt, ctx) for elt in members])": "ActUniteMembers",
